@@ -39,7 +39,12 @@ func HarnessC14AddProof() {
 	rm := refShape(verifParam("N", 5))
 	v := rm.view()
 	live := rm.liveSlots()
-	sa := refPickSubset("A", live, verifParam("K", 2))
+	var sa []int
+	if verifParam("allA", 0) == 1 {
+		sa = live // proof A covers every live leaf (no proof hashes)
+	} else {
+		sa = refPickSubset("A", live, verifParam("K", 2))
+	}
 	sb := refPickSubset("B", live, verifParam("K", 2))
 	pa, ha, _ := c14Proof(rm, v, sa)
 	pb, hb, _ := c14Proof(rm, v, sb)
